@@ -126,9 +126,11 @@ def violated_formula(c, X, dom, tag):
         hi = max(dom[n][1] + di for n, di in zip(names, d))
         out = []
         for t in range(lo, hi + 1):
-            load = _isum(z3.If(z3.And(X[n] <= t, t < X[n] + di), de, 0) for n, di, de in zip(names, d, dem))
-            out.append(load > cap)
-        return z3.Or(*out)
+            # only tasks whose start window lets them run at t contribute
+            act = [(n, di, de) for n, di, de in zip(names, d, dem) if dom[n][0] <= t < dom[n][1] + di]
+            if sum(de for _, _, de in act) > cap:
+                out.append(_isum(z3.If(z3.And(X[n] <= t, t < X[n] + di), de, 0) for n, di, de in act) > cap)
+        return z3.Or(*out) if out else z3.BoolVal(False)
     if k == "circuit":
         names = c[1]
         n = len(names)
@@ -249,3 +251,27 @@ def neg_over_cnf(cnf: Cnf, desc, bool_vars, timeout_ms=10000):
 def violated(desc, a):
     """re-export of the certifying direct check"""
     return cp_sem.violated(desc, a)
+
+
+def selftest(desc, limit=400):
+    """cross-check of this file against cp_sem on one small description: for every point of the box,
+    violated_formula / holds_formula must agree with cp_sem.holds constraint by constraint. returns list of disagreements"""
+    import itertools
+    X, dom, box = int_vars(desc)
+    names = [v[0] for v in desc["vars"]]
+    pts = list(itertools.islice(itertools.product(*[range(lb, ub + 1) for _, lb, ub in desc["vars"]]), limit))
+    bad = []
+    for k, c in enumerate(desc["constraints"]):
+        sv, sh = z3.Solver(), z3.Solver()
+        sv.add(violated_formula(c, X, dom, f"v{k}"))
+        sh.add(holds_formula(c, X, dom, f"h{k}"))
+        for p in pts:
+            a = dict(zip(names, p))
+            fix = [X[n] == v for n, v in a.items()]
+            want = cp_sem.holds(c, a)
+            got_v = sv.check(*fix) == z3.sat
+            got_h = sh.check(*fix) == z3.sat
+            if got_v == want or got_h != want:
+                bad.append((c, a, want, got_v, got_h))
+                break
+    return bad
